@@ -47,9 +47,13 @@ def gen_case(rng: Rng, i: int, tier: str):
         if gen.chain_has_aes(sess["chain"]) and sess["password"] is None:
             sess["password"] = "secret"
     target = r.wpick([(4, "path"), (3, "stream"), (2, "bufobj"), (2, "mv")])
+    vol = r.pick([64, 65, 100, 1000, 4096, 100000])
+    if target == "mv":
+        # multivolumefile writes a block recursively, one volume per level: keep block / volume below the recursion limit
+        vol = max(vol, maxlen // 300, knobs["block"] // 300 if maxlen > knobs["block"] else 0)
     case = {"session": sess, "target": target, "knobs": knobs, "rng": r.randrange(1 << 30),
             "read": {"kind": r.pick(["path", "stream"]), "block": gen.gen_knobs(r)["block"], "chunk": gen.gen_knobs(r)["chunk"]},
-            "volume": r.pick([64, 65, 100, 1000, 4096, 100000]), "path_extract": pathx}
+            "volume": vol, "path_extract": pathx}
     return case
 
 
